@@ -47,6 +47,17 @@ CHECKS = {
         "bound_text": "all 7x7 kind pairings, full 64-bit ints/float bit patterns (NaN, inf, -0 included); strings/arrays of length <= 2 (index laws: <= 3), array nesting 1",
         "assumptions": ["operands are well-formed values as built by the package's constructors", "shift semantics only pinned down for counts 0..63 (and non-negative left operand for >>); other counts: must yield an int without fault"],
     },
+    "C12": {
+        "runs": [
+            {"harness": ["internal/vsess.VerifC12Positions"], "pkgs": ["./internal/vsess"], "fuel": 4000000,
+             "params_quick": {"budget": 1, "nops": 3, "leaves": 3, "polykinds": 3, "sandwich": 0}, "params_thorough": {"budget": 1, "nops": 5, "leaves": 4},
+             "covers": {"VerifC12Positions": ["value", "runtime-error"]}},
+            {"harness": ["internal/vsess.VerifC12Increment", "internal/vsess.VerifC12Conditions"], "pkgs": ["./internal/vsess"], "fuel": 4000000,
+             "covers": {"VerifC12Increment": ["value", "runtime-error"], "VerifC12Conditions": ["value", "runtime-error"]}},
+        ],
+        "bound_text": "expression e from the families (<= budget operator/wrapper nodes, sandwiches) in 11 paired spellings (used/discarded, function tail, operand depth 0..2 left and right, call argument, array element, index position, e op e, loop body); three increment spellings at global and local scope for x of any scalar kind; if/while conditions of any scalar kind in 5 positions",
+        "assumptions": ["e op e vs t op t only for e without calls (two evaluations of a side effect are a different program)"],
+    },
     "C13": {
         "runs": [
             {"harness": ["lexer.VerifC13History", "lexer.VerifC13Step"], "pkgs": ["./lexer"],
@@ -97,6 +108,7 @@ CHECKS = {
 }
 
 LEVEL_TEXT = {
+    "C12": "Implementation against implementation: two spellings of the same computation are compiled and run symbolically in two sessions sharing the same symbolic global values; equality of error class and of the result value for all operand kinds/values is a solver-decided assertion per explored shape. Conditions of if/while of symbolic kind must be errors exactly when the kind is not bool.",
     "C09": "The compiler and VM are executed symbolically on generated statements in used/discarded/returning positions; after every run (normal, return, runtime error) the operand stack pointer, frame stack, closure stack, live iterator contexts and the main instruction pointer are read through accessors and must be back at their idle values, and a loop run 1 vs N>128 times must leave the operand stack array equally long. Operand kinds and literal values are solver variables, so which branch of a conditional runs in an iteration is decided by the solver.",
     "C05": "The whole pipeline (symbol rewriting, bytecode compiler with its context flags and temp-register strategy, VM, value algebra, memory) is executed symbolically from SSA on generated syntax trees. Tree shapes and embeddings are enumerated by forking; operand kinds (nil/int/float/bool) and all literal payloads are solver variables, so e.g. a zero divisor, an index equal to the length or a NaN is a model the solver must exclude. Any feasible Go panic path, non-terminating run or undocumented error class is a violation, replayed natively.",
     "C18": "Every method of memory.Type is executed symbolically from SSA along solver-chosen operation sequences and call/fork scenarios whose sizes cross the 128-cell allocation boundaries, beside a capacity-free reference model; after every operation every variable of every live context is read back and must equal the last value written (values are symbolic, so equality is a solver verdict, and every Go panic path such as an index out of range must be infeasible). Sizes are enumerated from a boundary set, not symbolic: the engine has no symbolic-length slices.",
